@@ -89,6 +89,32 @@ def writePostings (count cs maxDoc : Nat) (es : List Entry) (roaring : Bytes) : 
   { bytes := tf.2 ++ lc.2 ++ putUvarint tf.1 ++ putUvarint lc.1 ++ putUvarint roaring.length ++ roaring,
     tfOffset := tf.1, locOffset := lc.1, postingsOffset := po }
 
+/-! ## uvarints as Layout reads them -/
+
+/-- Twin of `Layout.uvLim.go`: at most `fuel` more bytes, the 10th at most 1 (Go's
+    `binary.Uvarint` overflow rule). -/
+def uv64Go : Nat → Bytes → Nat → Nat → Option (Nat × Bytes)
+  | 0, _, _, _ => none
+  | _ + 1, [], _, _ => none
+  | fuel + 1, x :: r, sh, acc =>
+    if x < 128 then
+      if fuel = 0 ∧ x > 1 then none else some (acc + (x <<< sh), r)
+    else uv64Go fuel r (sh + 7) (acc + ((x - 128) <<< sh))
+
+/-- Twin of `Layout.uvLim` on the bytes of the region: value and remaining bytes. -/
+def uv64 (bs : Bytes) : Option (Nat × Bytes) := uv64Go 10 bs 0 0
+
+/-- `n` uvarints in a row. -/
+def readN64 : Nat → Bytes → Option (List Nat × Bytes)
+  | 0, bs => some ([], bs)
+  | n + 1, bs =>
+    match uv64 bs with
+    | none => none
+    | some (v, r) =>
+      match readN64 n r with
+      | none => none
+      | some (vs, r') => some (v :: vs, r')
+
 /-! ## B. posting streams (list-level twin of Layout's `readChunks`, `walkChunks`,
     `decFreq`, `decLocs`, and of the zipping loop of `decPostings`) -/
 
@@ -98,10 +124,10 @@ def nondec : List Nat → Bool
 
 /-- Twin of `Layout.readChunks`: (END offsets, the bytes after the table). -/
 def readChunksL (stream : Bytes) : Option (List Nat × Bytes) :=
-  match uvarint stream with
+  match uv64 stream with
   | none => none
   | some (n, rest) =>
-    match readN n rest with
+    match readN64 n rest with
     | none => none
     | some (offs, data) =>
       if !nondec offs then none
@@ -145,22 +171,22 @@ def walkChunksL {α : Type} (cs : Nat) (stream : Bytes) (docs : List Nat)
 
 /-- Twin of `Layout.decFreq`: (freq, norm, hasLocs). -/
 def decFreqL (_doc : Nat) (cur : Bytes) : Option ((Nat × Nat × Bool) × Bytes) :=
-  match uvarint cur with
+  match uv64 cur with
   | none => none
   | some (v, r) =>
     let fh := Gen.decodeFreqHasLocs v
     if fh.1 ≠ 0 then
-      match uvarint r with
+      match uv64 r with
       | none => none
       | some (nb, r') => some ((fh.1, nb, fh.2), r')
     else some ((0, 0, fh.2), r)
 
 /-- One location: fieldID, pos, start, end, numArrayPos, arrayPos... -/
 def readLoc (maxAp : Nat) (bs : Bytes) : Option (MLoc × Bytes) :=
-  match readN 5 bs with
+  match readN64 5 bs with
   | some ([fid, pos, st, en, nap], r) =>
     if nap > maxAp then none else
-    match readN nap r with
+    match readN64 nap r with
     | none => none
     | some (aps, r') => some ({ fid := fid, pos := pos, start := st, stop := en, ap := aps }, r')
   | _ => none
@@ -177,7 +203,7 @@ def parseLocs (maxAp : Nat) : Nat → Bytes → Option (List MLoc)
 /-- Twin of `Layout.decLocs`: uvarint numLocsBytes, then exactly that many bytes of
     locations.  The remainder is what `SkipBytes(numLocsBytes)` leaves. -/
 def decLocsL (_doc : Nat) (cur : Bytes) : Option (List MLoc × Bytes) :=
-  match uvarint cur with
+  match uv64 cur with
   | none => none
   | some (nbytes, r) =>
     if nbytes > r.length then none else
@@ -261,10 +287,10 @@ def storedGroups (raw : Bytes) : Nat → List Nat → Option (List StoredVal)
 
 /-- Twin of `Layout.decStoredDoc`: the record at offset `off` of the file `bs`. -/
 def decodeStoredDocL (bs : Bytes) (off : Nat) : Option StoredDoc :=
-  match uvarint (bs.drop off) with
+  match uv64 (bs.drop off) with
   | none => none
   | some (ml, r1) =>
-    match uvarint r1 with
+    match uv64 r1 with
     | none => none
     | some (dl, r2) =>
       if ml + dl > r2.length then none else
